@@ -30,7 +30,7 @@ Definition part_mentions (p : spart) : list aattr :=
   | PClass v => [short_mention s_class v]
   | PSet l => map attr_mention l
   end.
-Definition mentions (e : selem) : list aattr := flat_map part_mentions (se_parts e).
+Definition written_mentions (e : selem) : list aattr := flat_map part_mentions (se_parts e).
 
 (* ================================================================ convert_attribute *)
 (* the name / flag computation of convert_attribute, named *)
@@ -274,7 +274,7 @@ Proof. intros H. induction H; cbn [length]; congruence. Qed.
 (* ================================================================ the element node *)
 Definition attrs_opt (l : list aattr) : option (list aattr) := match l with [] => None | _ => Some l end.
 
-Definition elem_node (e : selem) : anode := ANode (Some (se_name e)) None None (attrs_opt (mentions e)) [] false.
+Definition elem_node (e : selem) : anode := ANode (Some (se_name e)) None None (attrs_opt (written_mentions e)) [] false.
 
 Lemma conv_elem env pos e st :
   selem_ok e -> conv_stmt env (leaf_node (elem_leaf pos e)) st = Ok ([elem_node e], st).
@@ -284,7 +284,7 @@ Proof.
   rewrite (stringify_name_lit env (word_tok pos (se_name e)) (se_name e) st eq_refl). cbn [bind].
   pose proof (pointwise_parts env (se_parts e) (pos + length (se_name e)) Hp) as Hpw.
   pose proof (pointwise_quiet env _ _ Hpw st) as Hq.
-  unfold elem_node, mentions, elem_tattrs.
+  unfold elem_node, written_mentions, elem_tattrs.
   assert (Hlen := Forall2_len _ _ _ Hpw).
   destruct (se_parts e) as [|p ps] eqn:Eps.
   - cbn [nonempty bind flat_map attrs_opt]. destruct (se_name e); [congruence|]. reflexivity.
@@ -345,7 +345,7 @@ Proof.
   unfold elem_text, e in H. cbn [se_name se_parts parts_text part_text attrs_text] in H.
   unfold attr_text in H. rewrite Han in H. cbn [sa_value a] in H.
   rewrite app_nil_r in H. rewrite <- app_assoc in H. cbn [app] in H.
-  rewrite H. unfold elem_node, mentions. cbn [se_name se_parts flat_map part_mentions map app attrs_opt].
+  rewrite H. unfold elem_node, written_mentions. cbn [se_name se_parts flat_map part_mentions map app attrs_opt].
   unfold attr_mention. cbn [sa_value sa_name sa_boolean sa_implied a].
   destruct v; reflexivity.
 Qed.
@@ -368,4 +368,34 @@ Proof.
   apply andb_true_iff in Hc. destruct Hc as [H1 H2].
   apply negb_true_iff in H1. apply negb_true_iff in H2. apply negb_true_iff in H3.
   destruct (IH Hs) as [Hp Hu]. cbn [qpayload unescape]. rewrite H1, H2, H3, Hu. cbn [orb]. split; [exact Hp|reflexivity].
+Qed.
+
+(* quoted value without `\`, `$` and that quote (everything else free: brackets, braces, operators, `*`,
+   parentheses, the other quote, white space, line breaks, unicode): the value is the text between
+   the quotes, character for character *)
+Theorem quoted_value_verbatim jsx env mr (name n : str) (s : bool) (q : str) :
+  word_ok name -> (jsx = false \/ head_upper name = false) -> plain_attr_name n ->
+  qverbatim (qchar s) q = true -> ce_text env = WNone ->
+  parse_abbr jsx env mr (name ++ c_lbrack :: n ++ c_eq :: qchar s :: q ++ [qchar s; c_rbrack]) =
+    Ok [ANode (Some name) None None
+              (Some [mkAAttr (Some n) (Some (match q with [] => [] | _ => [VStr q] end))
+                             (if s then VSingle else VDouble) false false false]) [] false].
+Proof.
+  intros Hname Hj Hn Hq Htext. destruct (qverbatim_payload _ _ Hq) as [Hp Hu].
+  pose proof (attr_value_literal jsx env mr name n (SQuo s q) Hname Hj Hn Hp Htext) as H.
+  cbn [val_text written_value written_type] in H. unfold payload_value in H. rewrite Hu in H.
+  replace (n ++ c_eq :: qchar s :: q ++ [qchar s; c_rbrack]) with (n ++ (c_eq :: qchar s :: q ++ [qchar s]) ++ [c_rbrack]).
+  - exact H.
+  - cbn [app]. rewrite <- app_assoc. reflexivity.
+Qed.
+
+(* `(` / `)` inside an unquoted attribute value, end to end: the value is the text as written *)
+Theorem group_bracket_attr jsx env mr (name n v : str) :
+  word_ok name -> (jsx = false \/ head_upper name = false) -> plain_attr_name n -> uq_ok v ->
+  ce_text env = WNone ->
+  parse_abbr jsx env mr (name ++ c_lbrack :: n ++ c_eq :: v ++ [c_rbrack]) =
+    Ok [ANode (Some name) None None (Some [mkAAttr (Some n) (Some [VStr v]) VRaw false false false]) [] false].
+Proof.
+  intros Hname Hj Hn Hv Htext.
+  exact (attr_value_literal jsx env mr name n (SUnq v) Hname Hj Hn Hv Htext).
 Qed.
